@@ -203,6 +203,15 @@ Section Good.
   Qed.
 End Good.
 
+Lemma check_globals_no_panic ds : forall g x, check_globals ds g <> Panic x.
+Proof.
+  induction ds as [|d ds IH]; intros g x; cbn [check_globals]; [discriminate|]. unfold check_global.
+  destruct (globals_get g (gl_name d)) as [v|].
+  - destruct (is_list_quant (gl_quant d)); [destruct (as_list v)|]; cbn [obind]; try discriminate; apply IH.
+  - destruct (gl_default d) as [s|]; [|discriminate]. destruct (globals_add g (gl_name d) (VStr s)) as [g' b].
+    destruct b; cbn [obind]; [apply IH|discriminate].
+Qed.
+
 (* ------------------------------------------------------------------ the safety predicate *)
 Definition glen (s : sstate) : nat := length (s_graph s).
 (* frame depth and length of the parameter buffer *)
@@ -738,5 +747,148 @@ Section Safe.
         + rewrite Forall_forall in Hvals. eapply vgood_mono; [|apply Hvals, Hx]. lia.
         + intros _ n7 Hn7 _. apply (Hblock le (fun m => m) body); auto.
     Qed.
+
+    (* ---- matches: what tree-sitter guarantees about a match of the stanza's query ---- *)
+    Definition good_match (st : stanza) (m : qmatch) : Prop :=
+      nodes_for_capture m (st_full_stanza_idx st) <> [] /\
+      forallb (stmt_ok (cap_ok m)) (st_stmts st) = true /\
+      Forall (fun c : N * list N => Forall sok (snd c)) m.
+    Fixpoint good_matches (sts : list stanza) (ms : list (list qmatch)) {struct sts} : Prop :=
+      match sts, ms with
+      | st :: sts', m :: ms' => Forall (good_match st) m /\ good_matches sts' ms'
+      | _, _ => True
+      end.
+
+    Lemma nodes_for_capture_sok m i : Forall (fun c : N * list N => Forall sok (snd c)) m -> Forall sok (nodes_for_capture m i).
+    Proof.
+      induction m as [|[j ns] m IH]; intros H; cbn [nodes_for_capture]; [constructor|]. inversion H; subst.
+      destruct (N.eqb i j); [apply Forall_app; split; auto|auto].
+    Qed.
+    Lemma caps_safe_cap_ok m : Forall (fun c : N * list N => Forall sok (snd c)) m -> caps_safe m (cap_ok m).
+    Proof.
+      intros H q idx Hq. pose proof (nodes_for_capture_sok m idx H) as Hn. unfold cap_ok in Hq.
+      assert (Hl : forall k, vgood sok k (VList (map VSyn (nodes_for_capture m idx)))).
+      { intros k. apply vgood_list. apply Forall_forall. intros x Hx. apply in_map_iff in Hx as (n & <- & Hin).
+        cbn [vgood]. rewrite Forall_forall in Hn. apply Hn, Hin. }
+      destruct q; cbn [from_nodes].
+      - discriminate.
+      - destruct (nodes_for_capture m idx) as [|n ns]; [discriminate|]. intros k. cbn [vgood]. inversion Hn; assumption.
+      - destruct (nodes_for_capture m idx) as [|n ns]; intros k; cbn [vgood]; [exact I|inversion Hn; assumption].
+      - exact Hl.
+      - exact Hl.
+    Qed.
+
+    Lemma safe_exec_stanza fuel st m n0 sh : good_match st m -> forallb (scans_ok regexes) (st_stmts st) = true ->
+      safe n0 sh sh T (exec_stanza t fl cfg glob regexes find call fuel st m).
+    Proof.
+      intros (Hfull & Hok & Hm) Hsc. unfold exec_stanza. eapply safe_bind; [apply safe_clear_frame|]. intros _ n1 Hn1 _.
+      apply safe_iterM_in. intros s Hin n2 Hn2. cbv zeta.
+      destruct (nodes_for_capture m (st_full_stanza_idx st)) as [|n ns] eqn:En; [exfalso; apply Hfull; reflexivity|].
+      apply safe_ctx. apply safe_exec_stmt with (okq := cap_ok m).
+      - cbn [le_with_ctx le_match]. apply caps_safe_cap_ok, Hm.
+      - cbn [le_with_ctx le_match le_full]. rewrite En. discriminate.
+      - eapply forallb_In; eauto.
+      - eapply forallb_In; eauto.
+    Qed.
+
+    Lemma safe_exec_file fuel : forall sts ms n0 sh, good_matches sts ms ->
+      forallb (fun st => forallb (scans_ok regexes) (st_stmts st)) sts = true ->
+      safe n0 sh sh T (exec_file t fl cfg glob regexes find call fuel sts ms).
+    Proof.
+      induction sts as [|st sts IH]; intros [|m ms] n0 sh Hg Hsc; cbn [exec_file]; try (apply safe_ret; intros; exact I).
+      cbn [good_matches] in Hg. destruct Hg as [Hm Hg]. cbn [forallb] in Hsc. apply andb_true_iff in Hsc as [Hsc1 Hsc2].
+      eapply safe_bind.
+      - apply safe_iterM_in. intros x Hx n1 Hn1. apply safe_exec_stanza; [|exact Hsc1]. rewrite Forall_forall in Hm. apply Hm, Hx.
+      - intros _ n1 Hn1 _. apply IH; assumption.
+    Qed.
   End Interp.
 End Safe.
+
+(* ------------------------------------------------------------------ the run *)
+(* what the parser and the checker guarantee, as far as the panic sites rely on it: every scan statement of
+   every stanza has a regex-table entry for each arm (P_regex_table), and attribute-shorthand bodies contain
+   no capture expression (the checker never visits them, so a capture there keeps the parser's placeholder
+   quantifier Zero: known class K1) *)
+Definition wf_file {rx : Type} (regexes : list rx) (fl : file) : bool :=
+  forallb (fun st => forallb (scans_ok regexes) (st_stmts st)) (f_stanzas fl) &&
+  forallb (fun sh => forallb (attr_ok no_capture) (sh_attrs sh)) (f_shorthands fl).
+Definition WellFormedFile {rx : Type} (regexes : list rx) (fl : file) : Prop := wf_file regexes fl = true.
+(* per stanza and match: the full-match capture is bound (else: known class K3); every capture expression of
+   the stanza has a resolved quantifier and, when it is One, at least one node in the match; all matched nodes
+   satisfy sok *)
+Definition GoodMatches (sok : N -> Prop) (fl : file) (matches : list (list qmatch)) : Prop :=
+  good_matches sok (f_stanzas fl) matches.
+Definition GoodGlobals (sok : N -> Prop) (g0 : graph) (supplied : globals) : Prop := ggood sok (length g0) supplied.
+
+Theorem exec_no_panic_strict {rx : Type} (sok : N -> Prop) t fl cfg supplied budget (regexes : list rx) find call fuel matches g0 :
+  WellFormedFile regexes fl -> GoodMatches sok fl matches -> GoodGlobals sok g0 supplied -> GoodCall sok call ->
+  forall x, run_strict t fl cfg supplied budget regexes find call fuel matches g0 <> Panic x.
+Proof.
+  intros Hwf Hm Hg Hcall x. unfold run_strict. unfold WellFormedFile, wf_file in Hwf. apply andb_true_iff in Hwf as [Hsc Hsh].
+  destruct (check_globals (f_globals fl) (globals_nested supplied)) as [glob|e|y|] eqn:Eg; try discriminate.
+  2:{ exfalso. exact (check_globals_no_panic _ _ _ Eg). }
+  assert (Hglob : ggood sok (length g0) glob).
+  { eapply check_globals_good; [|exact Eg]. constructor; [constructor|exact Hg]. }
+  assert (HI : Inv sok (length g0) (sinit g0)).
+  { unfold Inv, sinit, glen. cbn [s_graph s_locals s_scoped s_params]. split; [lia|]. split; [constructor; constructor|].
+    split; constructor. }
+  pose proof (safe_exec_file sok (length g0) t fl cfg glob regexes find call Hglob Hcall
+                (fun sh Hin => forallb_In _ _ _ Hsh Hin) fuel (f_stanzas fl) matches 0%nat (1%nat, 0%nat) Hm Hsc
+                (sinit g0) (polls0 budget) HI (Nat.le_0_l _) eq_refl) as H.
+  destruct (exec_file t fl cfg glob regexes find call fuel (f_stanzas fl) matches (sinit g0) (polls0 budget)) as [[[u s] p]|e|y|];
+    try discriminate. contradiction.
+Qed.
+
+(* ------------------------------------------------------------------ the real function library *)
+Definition syn_ok (t : tree) (n : N) : Prop := syn_valid t (VSyn n) = true.
+
+Definition simple (v : value) : Prop := match v with VBool _ | VInt _ | VStr _ => True | _ => False end.
+Definition rsimple (r : res value) : Prop := match r with Ok v => simple v | _ => True end.
+Lemma rsimple_bind {A} (m : res A) (k : A -> res value) : (forall a, rsimple (k a)) -> rsimple (obind m k).
+Proof. destruct m; cbn [obind]; auto; intros; exact I. Qed.
+Lemma simple_good sok n v : simple v -> vgood sok n v.
+Proof. destruct v; cbn [simple vgood]; tauto. Qed.
+
+Ltac rs_step :=
+  first [ exact I
+        | apply rsimple_bind; intros ?; cbv beta
+        | match goal with |- rsimple (match ?x with _ => _ end) => destruct x end ].
+Lemma rsimple_with_syntax_node t args body : (forall n x, rsimple (body n x)) -> rsimple (with_syntax_node t args body).
+Proof. intros H. unfold with_syntax_node. repeat rs_step. apply H. Qed.
+
+Lemma pure_simple rx t fn g args : fn <> FNode -> fn <> FConcat -> rsimple (stdlib_pure rx t fn g args).
+Proof.
+  intros H1 H2. destruct fn; try congruence; cbn [stdlib_pure];
+    try (apply rsimple_with_syntax_node; intros n x; try exact I).
+  all: try (repeat rs_step; fail).
+  - unfold named_child_index_body. repeat rs_step.
+  - unfold source_text_body. repeat rs_step.
+Qed.
+
+Lemma concat_loop_good sok n : forall ps acc l, Forall (vgood sok n) ps -> Forall (vgood sok n) acc ->
+  concat_loop ps acc = Ok l -> Forall (vgood sok n) l.
+Proof.
+  induction ps as [|v ps IH]; intros acc l Hps Hacc; cbn [concat_loop]; [intros E; inversion E; subst; exact Hacc|].
+  inversion Hps; subst. destruct v; cbn [as_list obind]; try discriminate. apply IH; [assumption|].
+  apply Forall_app. split; [exact Hacc|]. apply vgood_list. assumption.
+Qed.
+
+Lemma stdlib_good_call rx t : GoodCall (syn_ok t) (stdlib_call rx t).
+Proof.
+  intros f g args Ha.
+  assert (Hv : args_valid t args = true).
+  { unfold args_valid. apply forallb_forall. intros v Hin. rewrite Forall_forall in Ha. specialize (Ha v Hin).
+    destruct v; try reflexivity. exact Ha. }
+  pose proof (no_panic_lemma rx t f g args Hv) as Hnp.
+  destruct (stdlib_call rx t f g args) as [[v g']|e|x|] eqn:E; auto.
+  unfold stdlib_call in E. destruct (fn_of_name f) as [fn|]; [|discriminate]. unfold stdlib_fn in E.
+  destruct (stdlib_pure rx t fn g args) as [v0|e0|x0|] eqn:Ep; cbn [obind] in E; try discriminate. inversion E; subst v0 g'; clear E.
+  assert (Hfn : fn = FNode \/ fn = FConcat \/ (fn <> FNode /\ fn <> FConcat)) by (destruct fn; auto; right; right; split; discriminate).
+  destruct Hfn as [->|[->|[N1 N2]]].
+  - cbn [stdlib_pure] in Ep. destruct (finish args); cbn [obind] in Ep; try discriminate. inversion Ep; subst v.
+    cbn [add_graph_node fst snd]. rewrite app_length. cbn [length vgood]. rewrite Nat2N.id. split; lia.
+  - cbn [stdlib_pure] in Ep. destruct (concat_loop args []) as [l| | |] eqn:El; cbn [obind] in Ep; try discriminate. inversion Ep; subst v.
+    split; [lia|]. apply vgood_list. eapply concat_loop_good; [exact Ha|constructor|exact El].
+  - pose proof (pure_simple rx t fn g args N1 N2) as Hs. rewrite Ep in Hs. cbn [rsimple] in Hs.
+    split; [destruct fn; try lia; congruence|apply simple_good, Hs].
+Qed.
